@@ -215,6 +215,7 @@ func (e Engine) Generate(r *core.Rand, tier core.Tier) *core.Scenario {
 	}
 	// The VRF beacon backend (own PRNG; after all other tuning, see workload_vrf.go).
 	vrfRand := tuneVRF(e.Prop, &k)
+	vrfEpoch, vrfQuiet := int64(-1), false
 	sc := &core.Scenario{Engine: "chain", Knobs: core.MustJSON(k)}
 	gasFitRand := core.NewRand(core.Derive(core.Hash64([]byte(k.Gen.Salt)), "gas-fit", 0))
 	heights := r.Range(12, 40)
@@ -318,7 +319,11 @@ func (e Engine) Generate(r *core.Rand, tier core.Tier) *core.Scenario {
 		}
 		vrfTxs := 0
 		if vrfRand != nil {
-			for _, op := range genVRFOps(vrfRand) {
+			// About one epoch in four is quiet (drawn once per epoch of the generator's own count).
+			if ep := int64(h) / k.Gen.EpochInterval; ep != vrfEpoch {
+				vrfEpoch, vrfQuiet = ep, vrfRand.Chance(1, 4)
+			}
+			for _, op := range genVRFOps(vrfRand, vrfQuiet) {
 				op := op
 				sc.Ops = append(sc.Ops, core.MustJSON(Op{K: "tx", Tx: &op}))
 				vrfTxs++
